@@ -14,7 +14,8 @@ SPEC = dict(
          'Further: every verdict is repeated with admissible input levels and in a long-lived verification context; RFC3161 algorithm ids beyond 32 bits; part builder (KSI_SignatureBuilder closed again after a refused close with changed components). '
          'RFC3161 record index with one element more / less than the first chain\'s. '
          'Calendar chain without aggregation time element whose links have the shape of the previous second. '
-         'Builder scenarios with a root level (the level added to the first link breaks / completes the chain); the padding element coded with the long header (as carried, and hashed as if short). A middle value of a later chain\'s index changed.',
+         'Builder scenarios with a root level (the level added to the first link breaks / completes the chain); the padding element coded with the long header (as carried, and hashed as if short). A middle value of a later chain\'s index changed.'
+         ' Part tail-without-calendar: a publication or calendar authentication record kept while the calendar chain is removed (48 bases x 3): never OK.',
     bounds=dict(
         quick='f2: 1440 bases; f1: chain shapes {1},{2},{1,1},{2,1},{1,2} links with 16 descriptors per link; single: 48 bases x 63 mutations; pairs: 8 bases x all pairs; byte: 2 bases x every offset x 4 operators',
         thorough='f1: shapes up to {2,2} and {1,1,1} with 24 descriptors per link; pairs on all 48 bases; byte mutations on 7 bases'),
